@@ -2,6 +2,8 @@
 
 import math
 import time
+from decimal import Decimal
+from fractions import Fraction
 from typing import Any, Dict, List, Optional, Tuple, Union
 from dataclasses import dataclass
 
@@ -52,6 +54,34 @@ def js_round(x: float, ndigits: int = 0) -> float:
             return math.floor(x * multiplier + 0.5) / multiplier
         else:
             return math.ceil(x * multiplier - 0.5) / multiplier
+
+
+def _round_half_up(value: Fraction) -> int:
+    """The integer closest to value; ties go up."""
+    return math.floor(value + Fraction(1, 2))
+
+
+def _shortest_digits(x: float) -> Tuple[str, int]:
+    """Digits d1d2...dk and exponent e with x == d1.d2...dk * 10**e, k as small as possible."""
+    sign, digits, exponent = Decimal(repr(float(x))).as_tuple()
+    text = "".join(map(str, digits)).rstrip("0") or "0"
+    return text, len(digits) + exponent - 1
+
+
+def _rounded_digits(x: float, count: int) -> Tuple[str, int]:
+    """The count-digit decimal closest to the exact value of x > 0, as (digits, exponent)."""
+    exact = Fraction(x)
+    exp = _shortest_digits(x)[1]
+    # The shortest digits may round across a power of ten
+    if exact < Fraction(10) ** exp:
+        exp -= 1
+    elif exact >= Fraction(10) ** (exp + 1):
+        exp += 1
+    scaled = _round_half_up(exact / Fraction(10) ** (exp - count + 1))
+    if scaled == 10**count:
+        scaled //= 10
+        exp += 1
+    return str(scaled), exp
 
 
 def js_number(n: Union[int, float]) -> Union[int, float]:
@@ -1796,131 +1826,92 @@ class VM:
     def _make_number_method(self, n: float, method: str) -> Any:
         """Create a bound number method."""
 
+        def not_finite():
+            if math.isnan(n):
+                return "NaN"
+            return "-Infinity" if n < 0 else "Infinity"
+
         def toFixed(*args):
             digits = to_integer(args[0]) if args else 0
             if digits < 0 or digits > 100:
                 raise JSRangeError("toFixed() digits out of range")
-            # Use JavaScript-style rounding (round half away from zero)
-            rounded = js_round(n, digits)
-            result = f"{rounded:.{digits}f}"
-            # Handle negative zero: if n was negative but rounded to 0, keep the sign
-            if n < 0 or (n == 0 and math.copysign(1, n) == -1):
-                if rounded == 0:
-                    result = "-" + result.lstrip("-")
-            return result
+            if math.isnan(n) or math.isinf(n):
+                return not_finite()
+            if abs(n) >= 1e21:
+                return to_string(n)
+            # The decimal value closest to the exact value of n; ties go up
+            scaled = _round_half_up(Fraction(abs(n)) * 10**digits)
+            text = str(scaled).rjust(digits + 1, "0")
+            if digits:
+                text = text[:-digits] + "." + text[-digits:]
+            return "-" + text if n < 0 else text
 
         def toString(*args):
-            radix = to_integer(args[0]) if args else 10
+            radix = 10
+            if args and args[0] is not UNDEFINED:
+                radix = to_integer(args[0])
             if radix < 2 or radix > 36:
                 raise JSRangeError("toString() radix must be between 2 and 36")
             if radix == 10:
-                if isinstance(n, float) and n.is_integer():
-                    return str(int(n))
-                return str(n)
+                return to_string(n)
+            if math.isnan(n) or math.isinf(n):
+                return not_finite()
             # Convert to different base
             if n < 0:
                 return "-" + self._number_to_base(-n, radix)
             return self._number_to_base(n, radix)
 
         def toExponential(*args):
-            import math
-
             if args and args[0] is not UNDEFINED:
                 digits = to_integer(args[0])
             else:
                 digits = None
 
-            if math.isnan(n):
-                return "NaN"
-            if math.isinf(n):
-                return "-Infinity" if n < 0 else "Infinity"
+            if math.isnan(n) or math.isinf(n):
+                return not_finite()
+            if digits is not None and (digits < 0 or digits > 100):
+                raise JSRangeError("toExponential() digits out of range")
 
-            if digits is None:
-                # Default precision - minimal representation
-                # Use repr-style formatting and convert to exponential
-                if n == 0:
-                    return "0e+0"
-                sign = "-" if n < 0 else ""
-                abs_n = abs(n)
-                exp = int(math.floor(math.log10(abs_n)))
-                mantissa = abs_n / (10**exp)
-                # Format mantissa without trailing zeros
-                mantissa_str = f"{mantissa:.15g}".rstrip("0").rstrip(".")
-                exp_sign = "+" if exp >= 0 else ""
-                return f"{sign}{mantissa_str}e{exp_sign}{exp}"
+            if n == 0:
+                mantissa, exp = "0" * ((digits or 0) + 1), 0
+            elif digits is None:
+                # As many digits as needed to identify the number
+                mantissa, exp = _shortest_digits(abs(n))
             else:
-                if digits < 0 or digits > 100:
-                    raise JSRangeError("toExponential() digits out of range")
-                # Round to specified digits
-                if n == 0:
-                    return "0" + ("." + "0" * digits if digits > 0 else "") + "e+0"
-                sign = "-" if n < 0 else ""
-                abs_n = abs(n)
-                exp = int(math.floor(math.log10(abs_n)))
-                mantissa = abs_n / (10**exp)
-                # Round mantissa to specified digits using JS-style rounding
-                rounded = js_round(mantissa, digits)
-                if rounded >= 10:
-                    rounded /= 10
-                    exp += 1
-                if digits == 0:
-                    mantissa_str = str(int(js_round(rounded)))
-                else:
-                    mantissa_str = f"{rounded:.{digits}f}"
-                exp_sign = "+" if exp >= 0 else ""
-                return f"{sign}{mantissa_str}e{exp_sign}{exp}"
+                mantissa, exp = _rounded_digits(abs(n), digits + 1)
+            if len(mantissa) > 1:
+                mantissa = mantissa[0] + "." + mantissa[1:]
+            sign = "-" if n < 0 else ""
+            exp_sign = "+" if exp >= 0 else "-"
+            return f"{sign}{mantissa}e{exp_sign}{abs(exp)}"
 
         def toPrecision(*args):
-            import math
-
             if not args or args[0] is UNDEFINED:
-                if isinstance(n, float) and n.is_integer():
-                    return str(int(n))
-                return str(n)
+                return to_string(n)
 
             precision = to_integer(args[0])
+            if math.isnan(n) or math.isinf(n):
+                return not_finite()
             if precision < 1 or precision > 100:
                 raise JSRangeError("toPrecision() precision out of range")
 
-            if math.isnan(n):
-                return "NaN"
-            if math.isinf(n):
-                return "-Infinity" if n < 0 else "Infinity"
-
             if n == 0:
-                if precision == 1:
-                    return "0"
-                return "0." + "0" * (precision - 1)
-
+                mantissa, exp = "0" * precision, 0
+            else:
+                mantissa, exp = _rounded_digits(abs(n), precision)
             sign = "-" if n < 0 else ""
-            abs_n = abs(n)
-            exp = int(math.floor(math.log10(abs_n)))
 
             # Decide if we use exponential or fixed notation
             if exp < -6 or exp >= precision:
-                # Use exponential notation
-                mantissa = abs_n / (10**exp)
-                rounded = js_round(mantissa, precision - 1)
-                if rounded >= 10:
-                    rounded /= 10
-                    exp += 1
-                if precision == 1:
-                    mantissa_str = str(int(js_round(rounded)))
-                else:
-                    mantissa_str = f"{rounded:.{precision - 1}f}"
-                exp_sign = "+" if exp >= 0 else ""
-                return f"{sign}{mantissa_str}e{exp_sign}{exp}"
-            else:
-                # Use fixed notation
-                # Calculate digits after decimal
-                if exp >= 0:
-                    decimal_places = max(0, precision - exp - 1)
-                else:
-                    decimal_places = precision - 1 - exp
-                rounded = js_round(abs_n, decimal_places)
-                if decimal_places <= 0:
-                    return f"{sign}{int(rounded)}"
-                return f"{sign}{rounded:.{decimal_places}f}"
+                if precision > 1:
+                    mantissa = mantissa[0] + "." + mantissa[1:]
+                exp_sign = "+" if exp >= 0 else "-"
+                return f"{sign}{mantissa}e{exp_sign}{abs(exp)}"
+            if exp == precision - 1:
+                return sign + mantissa
+            if exp >= 0:
+                return f"{sign}{mantissa[: exp + 1]}.{mantissa[exp + 1 :]}"
+            return f"{sign}0.{'0' * (-exp - 1)}{mantissa}"
 
         def valueOf(*args):
             return n
@@ -1935,19 +1926,45 @@ class VM:
         return methods.get(method, lambda *args: UNDEFINED)
 
     def _number_to_base(self, n: float, radix: int) -> str:
-        """Convert number to string in given base."""
-        if n != int(n):
-            # For non-integers, just use base 10
-            return str(n)
-        n = int(n)
-        if n == 0:
-            return "0"
+        """Convert a finite non-negative number to a string in the given base."""
         digits = "0123456789abcdefghijklmnopqrstuvwxyz"
+        integer = math.floor(n)
+        fraction = Fraction(n) - integer
         result = []
-        while n:
-            result.append(digits[n % radix])
-            n //= radix
-        return "".join(reversed(result))
+        if fraction:
+            # As many fraction digits as needed to tell n from its neighbours
+            n = float(n)
+            delta = Fraction(math.nextafter(n, math.inf)) - Fraction(n)
+            delta = max(delta / 2, Fraction(5e-324))
+            if fraction >= delta:
+                while True:
+                    fraction *= radix
+                    delta *= radix
+                    digit = math.floor(fraction)
+                    result.append(digit)
+                    fraction -= digit
+                    half = Fraction(1, 2)
+                    if fraction > half or (fraction == half and digit & 1):
+                        if fraction + delta > 1:
+                            # Round up and propagate the carry
+                            while result and result[-1] + 1 == radix:
+                                result.pop()
+                            if result:
+                                result[-1] += 1
+                            else:
+                                integer += 1
+                            break
+                    if fraction < delta:
+                        break
+        text = ""
+        while True:
+            integer, digit = divmod(integer, radix)
+            text = digits[digit] + text
+            if not integer:
+                break
+        if result:
+            text += "." + "".join(digits[d] for d in result)
+        return text
 
     def _make_string_method(self, s: str, method: str) -> Any:
         """Create a bound string method."""
